@@ -438,6 +438,82 @@ def canary(eng):
 
 
 # ------------------------------------------------------------------ unit list
+def spec_expand(body):
+    """reference escape expansion of the text between the quotes: returns the expanded string, or None if some escape is malformed.
+    Escapes: \\n \\r \\t, \\ followed by one of  \\ " ' /  (that character), \\ newline (nothing), \\xHH (two hex digits, immediately)"""
+    out, i = [], 0
+    while i < len(body):
+        ch = body[i]
+        if ch != "\\":
+            out.append(ch); i += 1; continue
+        if i + 1 >= len(body):
+            return None
+        e = body[i + 1].lower()
+        if e in "nrt":
+            out.append({"n": "\n", "r": "\r", "t": "\t"}[e]); i += 2
+        elif e in "\\\"'/":
+            out.append(body[i + 1]); i += 2
+        elif e == "\n":
+            i += 2
+        elif e == "x":
+            h = body[i + 2:i + 4]
+            if len(h) == 2 and all(c in "0123456789abcdefABCDEF" for c in h):
+                out.append(chr(int(h, 16))); i += 4
+            else:
+                return None
+        else:
+            return None
+    return "".join(out)
+
+
+def unit_bounded_escapes(eng, tier="quick"):
+    """bounded stand-in for the string scanner (parser code, outside the subset): every string body of length <= N over an alphabet with the
+    escape-relevant characters, in '.ascii "..."' with charset latin-1: bytes == the reference expansion, a malformed escape is an error"""
+    import itertools
+    alphabet = ["a", "\\", "x", "4", "1", " ", ";", "\n"] + ([] if tier == "quick" else ["n", "/", "G", "\t"])
+    maxlen = 5
+    bodies = ["".join(t) for n in range(0, maxlen + 1) for t in itertools.product(alphabet, repeat=n)]
+    bodies = [b for b in bodies if "\\" in b]                      # only bodies with a backslash are interesting
+    code = r'''
+from pdpy11 import reports
+from pdpy11.parser import parse
+from pdpy11.compiler import Compiler
+out = []
+for b in %r:
+    errs = []
+    try:
+        with reports.handle_reports(lambda p, i, *l: errs.append(i) if p is not reports.warning else None):
+            base, code = Compiler(output_charset="latin-1").compile_and_link_files([parse("t.mac", '.ascii "' + b + '"\n')])
+        out.append(["ok", code.hex()])
+    except reports.UnrecoverableError:
+        out.append(["fail", errs[:1]])
+    except Exception as e:
+        out.append(["crash", type(e).__name__])
+result = out
+''' % (bodies,)
+    res = driver.native([{"kind": "py", "code": code}], driver.tree_root(), timeout=1800)[0]
+    bad = []
+    if res["status"] != "ok":
+        bad.append(str(res)[:300]); res = {"result": []}
+    for b, r in zip(bodies, res["result"]):
+        want = spec_expand(b)
+        if r[0] == "crash":
+            bad.append((b, r))
+        elif want is None:
+            if r[0] == "ok":
+                bad.append((b, "malformed escape accepted", r[1]))
+        elif "\n" in want or '"' in b.replace('\\"', ""):
+            continue        # an unescaped newline / quote ends the literal: other rules apply
+        elif r != ["ok", want.encode("latin-1").hex()]:
+            bad.append((b, "expected " + want.encode("latin-1").hex(), r))
+    ob = dict(label="string-escapes:bytes==reference-expansion;a-malformed-escape(\\x without two hex digits right after it, unknown letter)-is-an-error", kind="bounded",
+              status="proved" if bodies and not bad else "failed", secs=0.0, path=[], witness=None, detail=str(bad[:5]), events=[], smt2=None, backend="cpython-native", unit="bounded-escapes",
+              func="parser.string_escape (bounded stand-in)", bound="every string body of length <= %d over %r that contains a backslash (%d bodies)" % (maxlen, alphabet, len(bodies)),
+              cases=len(bodies), cfg=dict(kind="bounded"))
+    return dict(unit="bounded-escapes", func="parser.string_escape (bounded stand-in)", paths=len(bodies), obligations=[ob], wall=0.0)
+
+
+
 def units(tier):
     us = []
     for bit in [None, 3, 8, 16, 32, "sym"]:
@@ -459,6 +535,7 @@ def units(tier):
     for n in range(1, NMAX + 1):
         us.append(("wordlist[%d]" % n, "unit_word_list", dict(n=n)))
     us.append(("directive-typing", "unit_typing", {}))
+    us.append(("bounded-escapes", "unit_bounded_escapes", dict(tier=tier)))
     # the codec contract the string directives assume (encode succeeds iff every character is in the charset, bytes pointwise, otherwise the
     # error is reported) is DISCHARGED for the default 'bk' charset by C14's obligations, re-run here; the other charsets are stdlib codecs
     us += [("bk-tables", "unit_bk_tables", {}), ("bk-encode", "unit_bk_encode", {}), ("bk-charliteral", "unit_bk_charliteral", {})]
@@ -473,6 +550,8 @@ def lit(v):
 def replay(o, tree):
     cfg = o.get("cfg") or {}
     w = o.get("witness") or {}
+    if o.get("kind") == "bounded":
+        return None
     if cfg.get("kind") == "get_as_int":
         if not w.get("v_isint", True):
             return None
